@@ -102,6 +102,36 @@ CHECKS["C11"] = dict(
     technique="deterministic simulation with fault injection: crash/KV-error enumeration + restart, durability oracle over acknowledged operations",
 )
 
+CHECKS["C01"] = dict(
+    level="exploration",
+    text="Real device commissioned by controller X; the device is crashed/restarted 2-5 times so that X runs new CASE handshakes (resumption first, "
+         "full Sigma1/2/3 after fallback, persisted resumption cache) while an on-path adversary mutates (bit/byte/truncate/extend), "
+         "replays/substitutes, drops, duplicates and delays the handshake datagrams; controller Y with its own CA and the same node id keeps "
+         "attempting CASE. Oracles: device CASE sessions only for X's identity and an existing fabric (every 100 ms probe), session pairs hold "
+         "crossed-equal keys, Y never served, X served again once faults stop. Limit: certificate-chain invalidity classes are not generated "
+         "(chain predicate = C19, pure function).",
+    design="DESIGN.md §4 C01",
+    technique="deterministic simulation with fault injection: seeded on-path mutation/replay/loss + crash/restart of the responder, session-agreement invariants",
+)
+CHECKS["C02"] = dict(
+    level="exploration",
+    text="Real device with an open basic commissioning window and 2-4 real PASE initiators plus a final honest probe: right/wrong passcode "
+         "(up to 25 wrong attempts), full commissioning or PASE only, initiators abandoned (task cancelled) at a tape-chosen microsecond, device "
+         "handlers cancelled, on-path mutation/replay of handshake datagrams, loss/dup/delay. Invariants on every 100 ms probe: a PASE session "
+         "exists only for a peer that knows the passcode, commissionable advertisement iff window open, failure counter never above 20; wrong "
+         "passcode never completes; 21+ failed proofs revoke the window.",
+    design="DESIGN.md §4 C02",
+    technique="deterministic simulation with fault injection: seeded interleaving of initiators, cancellation points, on-path mutation; per-step invariants",
+)
+CHECKS["C20"] = dict(
+    level="exploration",
+    text="Same runs as C02 (completed, abandoned, malformed, refused handshakes; cancelled handlers and initiators). After traffic stops and 400 s of "
+         "simulated time: no reserved session, no exchange, RX/TX slots empty, mDNS rendezvous slots idle on the device and on every initiator; "
+         "an honest PASE then succeeds while the window is open. Limit: default table sizes only (the smallest-table build is not exercised).",
+    design="DESIGN.md §4 C20",
+    technique="deterministic simulation with fault injection: abandonment/cancellation search with bounded-liveness and resource-accounting oracle",
+)
+
 NOT_APPLICABLE = {
     "C05": "pure function of (ACL entries, accessor, request): no schedule, clock, fault or history to simulate; stateful neighbours are covered by C06/C07",
     "C16": "pure function of a byte string / value tree (TLV codec): no schedule, clock, fault, crash or history; fuzzing/Kani territory, not deterministic simulation",
